@@ -56,6 +56,9 @@ def run_goal(goal):
     out = {'obligations': [], 'error': None, 'static_failures': [], 'bounded': [], 'vacuous': [], 'info': {'function': goal['key'], 'modes': None, 'rules': None}}
     kind, _, recs = goal['key'].partition(':')
     if kind == 'no_hidden_randomness': return hidden_randomness(goal, out)
+    if kind == 'units':
+        from . import units
+        return units.run_goal(goal)
     if kind != 'copy_semantics': raise RuntimeError('unknown static goal %s' % kind)
     units = cast.all_units()
     db = SP.load_all()
